@@ -117,11 +117,13 @@ macro_rules! ff_reset {
     }};
 }
 
+const TOP_TAGS: [&str; 10] = ["2^57", "2^58", "2^63", "2^64-9", "2^64-1024", "2^64-4096", "2^127", "2^128-8192", "control", "2^40"];
+
 fn rests(rng: &mut Rng, b: usize, k: usize, thorough: bool) -> Vec<Vec<u8>> {
     // k blocks reach the boundary; j more cross it; then a partial block
     let mut v = vec![];
     let js: &[usize] = if thorough { &[0, 1, 2] } else { &[0, 1] };
-    let parts: Vec<usize> = if thorough { vec![0, 1, b - 9, b - 8, b - 1, b / 2] } else { vec![0, b - 9, 7] };
+    let parts: Vec<usize> = if thorough { vec![0, 1, b - 9, b - 8, b - 1, b / 2, b - 17, b - 16] } else { vec![0, b - 9, b - 8, 7, b - 1, b - 17, b - 16] };
     for &j in js {
         for (pi, &p) in parts.iter().enumerate() {
             if !thorough && (pi + j + k) % 2 == 1 {
@@ -168,7 +170,10 @@ pub fn drive_c17(out: &mut dyn std::io::Write, seed: u64, thorough: bool, family
     if family == "blake" {
         for &k in ks.iter() {
             // BLAKE-224/256: 2^32-bit low-word carry; also with a non-zero high word, and far below (control)
-            for (x, tag) in [(1u128 << 32, "2^32"), (7u128 << 32, "7*2^32"), (1u128 << 40, "control")] {
+            for (x, tag) in [(1u128 << 32, "2^32"), (7u128 << 32, "7*2^32"), (1u128 << 40, "control"), (1u128 << 63, "2^63"), ((1u128 << 64) - 4096, "2^64-4096")] {
+                if !thorough && TOP_TAGS.contains(&tag) && k != (seed as usize) % 3 {
+                    continue; // quick tier: the top-of-range starts with one of the three distances to the boundary
+                }
                 let base = x - (k as u128) * 512;
                 for r in rests(&mut rng, 64, k, thorough) {
                     blake_ff!(out, blake_hash::Blake256, "Blake256", u32, 32, 4, base, &r, tag);
@@ -176,7 +181,10 @@ pub fn drive_c17(out: &mut dyn std::io::Write, seed: u64, thorough: bool, family
                 }
             }
             // BLAKE-384/512: 2^64-bit low-word carry
-            for (x, tag) in [(1u128 << 64, "2^64"), (3u128 << 64, "3*2^64"), (1u128 << 32, "control")] {
+            for (x, tag) in [(1u128 << 64, "2^64"), (3u128 << 64, "3*2^64"), (1u128 << 32, "control"), (1u128 << 127, "2^127"), (u128::MAX - 8191, "2^128-8192")] {
+                if !thorough && TOP_TAGS.contains(&tag) && k != (seed as usize) % 3 {
+                    continue; // quick tier: the top-of-range starts with one of the three distances to the boundary
+                }
                 let base = x - (k as u128) * 1024;
                 for r in rests(&mut rng, 128, k, thorough) {
                     blake_ff!(out, blake_hash::Blake512, "Blake512", u64, 64, 8, base, &r, tag);
@@ -187,7 +195,12 @@ pub fn drive_c17(out: &mut dyn std::io::Write, seed: u64, thorough: bool, family
     }
     if family == "groestl" {
         for &k in ks.iter() {
-            for (x, tag) in [(1u64 << 8, "2^8"), (1u64 << 16, "2^16"), (1u64 << 32, "2^32"), (1u64 << 40, "2^40")] {
+            // word boundaries of the block counter, and the top of its range (anything derived from it must not overflow either)
+            for (x, tag) in [(1u64 << 8, "2^8"), (1u64 << 16, "2^16"), (1u64 << 32, "2^32"), (1u64 << 40, "2^40"), (1u64 << 57, "2^57"), (1u64 << 58, "2^58"),
+                             (1u64 << 63, "2^63"), (u64::MAX - 8, "2^64-9")] {
+                if !thorough && TOP_TAGS.contains(&tag) && k != (seed as usize) % 3 {
+                    continue; // quick tier: the top-of-range starts with one of the three distances to the boundary
+                }
                 let base = x - k as u64;
                 for r in rests(&mut rng, 64, k, false) {
                     groestl_ff!(out, groestl_aesni::Groestl256, "Groestl256", base, &r, tag);
@@ -217,7 +230,10 @@ pub fn drive_c17(out: &mut dyn std::io::Write, seed: u64, thorough: bool, family
     }
     if family == "skein" {
         for &k in ks.iter() {
-            for (x, tag) in [(1u64 << 32, "2^32"), (1u64 << 40, "2^40"), (0u64, "zero")] {
+            for (x, tag) in [(1u64 << 32, "2^32"), (1u64 << 40, "2^40"), (0u64, "zero"), (1u64 << 63, "2^63"), (u64::MAX - 1023, "2^64-1024")] {
+                if !thorough && TOP_TAGS.contains(&tag) && k != (seed as usize) % 3 {
+                    continue; // quick tier: the top-of-range starts with one of the three distances to the boundary
+                }
                 for (b, which) in [(32usize, 0), (64, 1), (128, 2)] {
                     if x == 0 && k > 0 {
                         continue;
